@@ -40,3 +40,37 @@ Theorem C17_no_abort : forall P bk supply vault MP t0 sw sd,
   forall ops o, Forall user_op ops -> snd (step (run (init bk supply P vault MP t0 sw sd) ops) o) <> Panic.
 Proof. exact no_panic. Qed.
 Print Assumptions C17_no_abort.
+
+From Coq Require Import Lia.
+From Sge Require Import Gen.kernels Proofs.GenKernels Proofs.GenMint.
+(* the accepted parameter sets ARE what the Go validators accept: Params.Validate of x/mint (with validateBlocksPerYear, validatePhases,
+   validateExcludeAmount, the "every phase lasts a block" loop) and of x/bet (validateBatchSettlementCount, validateMaxBetByUIDQueryCount,
+   validateConstraints) are generated from the source on every run and proved equal to the model's predicates *)
+Theorem C17_validators_generated : forall MP P qc,
+  K_Params_Validate (gparams_of MP) = mparams_valid MP /\
+  K_betParams_Validate (gbp_of P qc) =
+    ((0 <? pr_bet_batch P) && (0 <? qc) && (1 <? pr_bet_min P) && (0 <=? pr_bet_fee P) && (pr_bet_fee P <? pr_bet_min P)).
+Proof. intros. split; [apply gen_mint_Validate|apply gen_bet_Validate]. Qed.
+Print Assumptions C17_validators_generated.
+
+(* C17_no_abort with its parameter hypotheses replaced by the verdicts of the generated validators: whatever x/mint's and x/bet's
+   Params.Validate accept (and any value whatsoever of the house, order-book and subaccount parameters) never aborts block processing *)
+Theorem C17_no_abort_validated : forall P qc bk supply vault MP t0 sw sd,
+  K_betParams_Validate (gbp_of P qc) = true -> K_Params_Validate (gparams_of MP) = true ->
+  bget bk POOL = 0 -> bget bk HOUSEFEE = 0 -> bget bk BETFEE = 0 -> (forall a, SUBBASE <= a -> 0 <= bget bk a) ->
+  forall ops o, Forall user_op ops -> snd (step (run (init bk supply P vault MP t0 sw sd) ops) o) <> Panic.
+Proof.
+  intros P qc bk supply vault MP t0 sw sd HB HM H1 H2 H3 H4.
+  apply bet_Validate_accepts in HB. rewrite gen_mint_Validate in HM.
+  apply no_panic; try assumption; lia.
+Qed.
+Print Assumptions C17_no_abort_validated.
+
+(* non-vacuity: the chain's default bet and mint parameters are accepted by the generated validators *)
+Example C17_defaults_accepted :
+  K_betParams_Validate {| G_betParams_BatchSettlementCount := 1000; G_betParams_MaxBetByUidQueryCount := 10;
+                          G_betParams_Constraints := {| G_Constraints_MinAmount := 1000000; G_Constraints_Fee := 0 |} |} = true /\
+  K_Params_Validate (gparams_of {| bpy := 6311520; excl := 0;
+                   phases := [{| ph_infl := 229787234042553191; ph_coef := PREC / 2 |};
+                              {| ph_infl := 286259541984732824; ph_coef := PREC / 2 |}] |}) = true.
+Proof. vm_compute. split; reflexivity. Qed.
